@@ -37,6 +37,9 @@
 (*   <<"constraints", l>>         build_core_constraints                   *)
 (*   <<"targets", l>>             build_routing_table_target_lengths       *)
 (*   <<"status", x, y, p, rec>>, <<"iobuf", x, y, p, bytes>>,              *)
+(*   <<"iobuf_text", x, y, p, class, cps>>  the console read as text       *)
+(*             (get_iobuf): the class of the object returned and the text  *)
+(*             as the sequence of its code points                          *)
 (*   <<"diag", x, y, pairs>>, <<"version", x, y, p, rec>>                  *)
 (*   <<"sys_chips", l>>           SystemInfo.chips()                       *)
 (*   <<"chipq", kind, x, y, answer>>  a single-chip question: "links"      *)
@@ -51,7 +54,7 @@
 (* State st: desc (responding chip -> record), seen (chips reported by the *)
 (* discovery in progress), done (result events so far).                    *)
 (***************************************************************************)
-EXTENDS Probe, Json, IOUtils
+EXTENDS Probe, SequencesExt, Json, IOUtils
 
 Traces == JsonDeserialize(IOEnv.TRACE_FILE)
 VARIABLES tid, ei, st, verdict
@@ -129,6 +132,17 @@ Planned == [AsPlanned |-> Len(st.done) < Len(Tr.plan) /\ Tr.plan[Len(st.done) + 
 VcpuOf(x, y, p) == (CHOOSE v \in SeqSet(Tr.vcpus) : v.x = x /\ v.y = y /\ v.p = p).bytes
 BlocksOf(x, y) == { u \in SeqSet(Tr.blocks) : u.x = x /\ u.y = y }
 Resv(cn) == <<cn[3], cn[4], cn[6]>>
+\* Console text.  The documentation of get_iobuf fixes the encoding of the console: "the string in the IOBUF,
+\* decoded from UTF-8".  UTF-8 (RFC 3629) writes a Unicode scalar value - 0..10FFFF without the surrogates
+\* D800..DFFF - as one to four bytes; distinct texts have distinct byte forms, so "the text read back is the
+\* machine's" is: the text consists of scalar values and its UTF-8 form is the machine's console, byte for byte.
+IsScalar(cp) == cp \in 0..55295 \/ cp \in 57344..1114111
+Utf8Char(cp) ==
+    IF cp < 128 THEN <<cp>>
+    ELSE IF cp < 2048 THEN <<192 + cp \div 64, 128 + (cp % 64)>>
+    ELSE IF cp < 65536 THEN <<224 + cp \div 4096, 128 + ((cp \div 64) % 64), 128 + (cp % 64)>>
+    ELSE <<240 + cp \div 262144, 128 + ((cp \div 4096) % 64), 128 + ((cp \div 64) % 64), 128 + (cp % 64)>>
+Utf8(cps) == FoldLeft(LAMBDA acc, cp : acc \o Utf8Char(cp), <<>>, cps)
 \* e: a "chip" event (one ChipInfo), c: the record of that chip
 ChipClauses(e, c) ==
     [CoreCountsTrue  |-> e[4] = c.nc,
@@ -216,6 +230,12 @@ Checks(e) ==
         Planned @@
         [IobufIsMachines |-> e[5] = WalkIobuf(BlocksOf(e[2], e[3]), DecodeVcpu(VcpuOf(e[2], e[3], e[4])).iobuf_address,
                                               Cardinality(BlocksOf(e[2], e[3])))]
+    [] e[1] = "iobuf_text" ->
+        Planned @@
+        [IobufTextIsMachines |-> /\ e[5] = "str"
+                                 /\ \A i \in 1..Len(e[6]) : IsScalar(e[6][i])
+                                 /\ Utf8(e[6]) = WalkIobuf(BlocksOf(e[2], e[3]), DecodeVcpu(VcpuOf(e[2], e[3], e[4])).iobuf_address,
+                                                           Cardinality(BlocksOf(e[2], e[3])))]
     [] e[1] = "diag" ->
         Planned @@
         [CountersAreMachines |-> e[4] = CountersOf((CHOOSE d \in SeqSet(Tr.diags) : d.x = e[2] /\ d.y = e[3]).words)]
